@@ -35,6 +35,22 @@ fn read_rsp() -> u64 {
     x
 }
 
+/// Overwrites every register the System V ABI lets a callee change (rcx, rdx, rsi, rdi, r8-r11).
+/// A helper may do this; compiled code that keeps a value in one of them across a helper call
+/// (the x86-64 JIT keeps the packet pointer of ldabs/ldind in x86 r10) then shows it.
+#[inline(always)]
+pub fn scrub_caller_saved() {
+    unsafe {
+        core::arch::asm!(
+            "mov rcx, 0x5a5a5a5a5a5a5a5a", "mov rdx, rcx", "mov rsi, rcx", "mov rdi, rcx",
+            "mov r8, rcx", "mov r9, rcx", "mov r10, rcx", "mov r11, rcx",
+            out("rcx") _, out("rdx") _, out("rsi") _, out("rdi") _,
+            out("r8") _, out("r9") _, out("r10") _, out("r11") _,
+            options(nomem, nostack, preserves_flags)
+        )
+    };
+}
+
 #[inline(always)]
 fn helper_body(slot: usize, a: [u64; 5]) -> u64 {
     let rsp = read_rsp();
@@ -50,6 +66,7 @@ fn helper_body(slot: usize, a: [u64; 5]) -> u64 {
             f(id, a, ret);
         }
     });
+    scrub_caller_saved();
     ret
 }
 
